@@ -150,9 +150,6 @@ Qed.
 
 (* ---------- one engine delete ---------- *)
 
-Definition good (d : dst) : Prop :=
-  forall s, In s (d_trace d) -> ~ (ds_kind s = KDel /\ ds_out s = OFailCond).
-
 Definition adds_of (d : dst) : list rec := flat_map fst (d_oc d).
 
 Record dinv (R : N) (U : store) (d : dst) : Prop := {
@@ -177,7 +174,8 @@ Lemma ed_cases R kind x d :
         d_trace d' = mkStep kind x o' (premiseb R (apply_env adds (d_store d)) x) :: d_trace d /\
         ((o' = OOk /\ d_store d' = del_slot x (apply_env adds (d_store d)) /\ d_lf d' = d_lf d /\ d_dead d' = false /\
           (kind = KDelCur -> memb x (apply_env adds (d_store d)) = true))
-         \/ (o' = OFailCond /\ (o = OFailCond \/ kind = KDelCur) /\ d_store d' = apply_env adds (d_store d) /\ d_lf d' = d_lf d /\ d_dead d' = false)
+         \/ (o' = OFailCond /\ (o = OFailCond \/ kind = KDelCur) /\ d_store d' = apply_env adds (d_store d) /\
+             d_lf d' = match kind with KDel => rkey x | KDelCur => d_lf d end /\ d_dead d' = false)
          \/ (o' = OFailOther /\ d_store d' = apply_env adds (d_store d) /\ d_lf d' = rkey x /\ d_dead d' = false)
          \/ (o' = ODie /\ d_store d' = apply_env adds (d_store d) /\ d_lf d' = d_lf d /\ d_dead d' = true))).
 Proof.
@@ -199,7 +197,7 @@ Proof.
       * destruct (memb x (apply_env adds (d_store d))) eqn:Em.
         -- exists OOk. cbn. split; [right; auto|]. repeat split. left. repeat split; try (intros _; exact Em); try exact Em.
         -- exists OFailCond. cbn. split; [right; auto|]. repeat split. right; left. repeat split. right; reflexivity.
-    + exists OFailCond. cbn. split; [right; auto|]. repeat split. right; left. repeat split. left; reflexivity.
+    + exists OFailCond. destruct kind; cbn; (split; [right; auto|]); repeat split; right; left; repeat split; left; reflexivity.
     + exists OFailOther. cbn. split; [right; auto|]. repeat split. right; right; left. repeat split.
     + exists ODie. cbn. split; [right; auto|]. repeat split. right; right; right. repeat split.
 Qed.
@@ -288,33 +286,26 @@ Proof.
   destruct (ed_cases R kind x d) as [[E _]|(Ed & Esk & adds & o & rest & o' & Hq & Eg & Eo & Et & Hres)];
     cbv zeta in *; [rewrite E; auto|].
   destruct Hres as [(_ & _ & E & _)|[(_ & _ & _ & E & _)|[(_ & _ & E & _)|(_ & _ & E & _)]]]; auto.
-Qed.
-
-Lemma ed_good R kind x d : good (engine_delete R kind x d) -> good d.
-Proof.
-  destruct (ed_cases R kind x d) as [[E _]|(Ed & Esk & adds & o & rest & o' & Hq & Eg & Eo & Et & Hres)];
-    cbv zeta in *; [rewrite E; auto|].
-  intros G s Hs. apply G. rewrite Et. right; exact Hs.
+  destruct kind; auto.
 Qed.
 
 Lemma skipped_self k : k <> [] -> skipped k k = true.
 Proof. intros H. unfold skipped. destruct k; [congruence|]. cbn [is_nil negb andb]. apply beqb_refl. Qed.
 
-(* a plain delete either removes the slot, or protects the key, or the compactor is gone *)
+(* a plain delete either removes the slot, or protects the key - whatever the error, a compare failure
+   included -, or the compactor is gone *)
 Lemma ed_effect R k r v d :
-  k <> [] -> good (engine_delete R KDel (RVer k r v) d) ->
+  k <> [] ->
   let d' := engine_delete R KDel (RVer k r v) d in
   d_dead d' = true \/ skipped (d_lf d') k = true \/ forall v', ~ In (RVer k r v') (d_store d').
 Proof.
-  intros Hk G. cbv zeta.
+  intros Hk. cbv zeta.
   destruct (ed_cases R KDel (RVer k r v) d) as [[E Hc]|(Ed & Esk & adds & o & rest & o' & Hq & Eg & Eo & Et & Hres)];
     cbv zeta in *; cbn [rkey] in *.
   - rewrite E. destruct Hc; auto.
-  - destruct Hres as [(_ & E & _)|[(-> & _)|[(_ & _ & E & _)|(_ & _ & _ & E)]]].
+  - destruct Hres as [(_ & E & _)|[(_ & _ & _ & E & _)|[(_ & _ & E & _)|(_ & _ & _ & E)]]].
     + right; right. intros v' Hin. rewrite E in Hin. apply in_del_slot_ver in Hin as [_ [H|H]]; congruence.
-    + exfalso. apply (G (mkStep KDel (RVer k r v) OFailCond (premiseb R (apply_env adds (d_store d)) (RVer k r v)))).
-      * rewrite Et. left; reflexivity.
-      * split; reflexivity.
+    + right; left. rewrite E. apply skipped_self; exact Hk.
     + right; left. rewrite E. apply skipped_self; exact Hk.
     + left; exact E.
 Qed.
@@ -471,7 +462,6 @@ Record evolves (R : N) (U : store) (kx : bytes) (d d' : dst) : Prop := {
   ev_low : forall k r v, In (RVer k r v) (d_store d') -> r <= R -> In (RVer k r v) (d_store d);
   ev_dead : d_dead d' = false -> d_dead d = false;
   ev_lf : d_lf d' = d_lf d \/ d_lf d' = kx;
-  ev_good : good d' -> good d;
   ev_w : winv d -> winv d'
 }.
 
@@ -489,18 +479,16 @@ Proof.
   - intros k r v. apply ed_low with (U := U); exact Hd.
   - apply ed_dead_mono.
   - apply ed_lf.
-  - apply ed_good.
   - intros Hw. apply ed_winv; [exact Hw| |exact Hx]. intros H1 H2. apply Hp; [exact H1|exact H2|apply ext_refl].
 Qed.
 
 Lemma evolves_trans R U kx d1 d2 d3 : evolves R U kx d1 d2 -> evolves R U kx d2 d3 -> evolves R U kx d1 d3.
 Proof.
-  intros [A1 A2 A3 A4 A5 A6] [B1 B2 B3 B4 B5 B6]. split.
+  intros [A1 A2 A3 A4 A6] [B1 B2 B3 B4 B6]. split.
   - exact B1.
   - intros k r v H Hr. apply A2; [apply B2; assumption|exact Hr].
   - intros H. apply A3. apply B3. exact H.
   - destruct B4 as [E|E]; rewrite E; [exact A4|right; reflexivity].
-  - intros H. apply A5. apply B5. exact H.
   - intros H. apply B6. apply A6. exact H.
 Qed.
 
@@ -509,10 +497,9 @@ Qed.
 Lemma step_inv Wf R U snap done x t s :
   snap = done ++ x :: t -> snap_ok snap ->
   linv Wf R U snap done (x :: t) s ->
-  good (w_d (wbody (cfg R) x s)) ->
   linv Wf R U snap (done ++ [x]) t (wbody (cfg R) x s).
 Proof.
-  intros Esnap Hok [Hd Hwf Htodo Hlow Hprev Hold] G.
+  intros Esnap Hok [Hd Hwf Htodo Hlow Hprev Hold].
   destruct (sorted_split done x t) as (Sd & St & Sdt); [rewrite <- Esnap; apply Hok|].
   assert (Hxin : In x snap) by (rewrite Esnap; apply in_app_iff; right; left; reflexivity).
   assert (Hkx : rkey x <> []) by (apply (so_keys _ Hok); exact Hxin).
@@ -526,7 +513,6 @@ Proof.
       + cbn [rrev] in HR. lia. }
   apply N.ltb_ge in HR.
   destruct (wbody_compact R x s) as (Ed & Eprev); [apply N.ltb_ge; exact HR|].
-  rewrite Ed in G.
   set (dA := stepA R x s) in *. set (dB := stepB R x dA) in *. set (dC := stepC R x dB) in *.
   (* facts about x when it follows a version of its own key *)
   assert (Hsame : beqb (rkey x) (w_pk s) = true -> 0 < w_pr s ->
@@ -544,10 +530,6 @@ Proof.
     intros _ _ V1 [E1 _]. cbn [premise]. right; left. exists (rrev x), vx. split; [|split; [exact Hlt|exact HR]].
     apply E1. rewrite <- Ex. apply Htodo; [left; reflexivity|rewrite Ex; reflexivity]. }
   (* after A: no older version of x's key is left, unless the key is protected or the compactor is gone *)
-  assert (GA : good dA).
-  { assert (GB : good dB).
-    { unfold dC, stepC in G. destruct x as [k0 orev [|]|]; try exact G. destruct (R <? orev); [exact G|apply ed_good in G; exact G]. }
-    unfold dB, stepB in GB. destruct (is_tomb (rval x)); [apply ed_good in GB; exact GB|exact GB]. }
   assert (Hgone : forall r v, In (RVer (rkey x) r v) done -> In (RVer (rkey x) r v) (d_store dA) -> r <= R ->
                   skipped (d_lf dA) (rkey x) = false -> d_dead dA = false -> False).
   { intros r v Hin HinA Hr Hsk Hdead.
@@ -563,10 +545,9 @@ Proof.
     { rewrite Hpk, beqb_refl. cbn [andb]. apply N.ltb_lt. lia. }
     assert (EdA : dA = engine_delete R KDel (RVer (w_pk s) (w_pr s) (w_pv s)) (w_d s)).
     { unfold dA, stepA. rewrite Eb. reflexivity. }
-    rewrite EdA in HinA, Hsk, Hdead, GA.
+    rewrite EdA in HinA, Hsk, Hdead.
     destruct (ed_effect R (w_pk s) (w_pr s) (w_pv s) (w_d s)) as [H|[H|H]].
     - rewrite Hpk. exact Hkx.
-    - exact GA.
     - congruence.
     - rewrite Hpk in H. congruence.
     - rewrite <- Hpk, <- Hpr in HinA. exact (H _ HinA). }
@@ -646,37 +627,15 @@ Qed.
 
 (* ---------- the whole scan ---------- *)
 
-Lemma wbody_good R y s : good (w_d (wbody (cfg R) y s)) -> good (w_d s).
-Proof.
-  intros G.
-  destruct (R <? rrev y) eqn:HR; [rewrite wbody_skip in G by exact HR; exact G|].
-  destruct (wbody_compact R y s HR) as (Ed & _). rewrite Ed in G.
-  assert (GB : good (stepB R y (stepA R y s))).
-  { unfold stepC in G. destruct y as [k0 orev [|]|]; try exact G. destruct (R <? orev); [exact G|apply ed_good in G; exact G]. }
-  assert (GA : good (stepA R y s)).
-  { unfold stepB in GB. destruct (is_tomb (rval y)); [apply ed_good in GB; exact GB|exact GB]. }
-  unfold stepA in GA. destruct (beqb (rkey y) (w_pk s) && (0 <? w_pr s)); [apply ed_good in GA; exact GA|exact GA].
-Qed.
-
-Lemma wloop_good R : forall t s, good (w_d (wloop (cfg R) t s)) -> good (w_d s).
-Proof.
-  induction t as [|y t IHt]; intros s G; cbn [wloop] in G; [exact G|].
-  change (need_more (cfg R) (w_out s)) with true in G. cbn [negb] in G.
-  destruct (d_dead (w_d s)); [exact G|].
-  apply (wbody_good R y). apply IHt. exact G.
-Qed.
-
 Lemma wloop_inv Wf R U snap : forall todo done s,
   snap = done ++ todo -> snap_ok snap -> linv Wf R U snap done todo s ->
-  good (w_d (wloop (cfg R) todo s)) ->
   dinv R U (w_d (wloop (cfg R) todo s)) /\ (Wf -> winv (w_d (wloop (cfg R) todo s))).
 Proof.
-  induction todo as [|x t IH]; intros done s Esnap Hok Hl G; cbn [wloop] in *; [split; apply Hl|].
+  induction todo as [|x t IH]; intros done s Esnap Hok Hl; cbn [wloop] in *; [split; apply Hl|].
   change (need_more (cfg R) (w_out s)) with true in *. cbn [negb] in *.
   destruct (d_dead (w_d s)) eqn:Edead; [split; apply Hl|].
   assert (E2 : snap = (done ++ [x]) ++ t) by (rewrite <- app_assoc; exact Esnap).
-  assert (G1 : good (w_d (wbody (cfg R) x s))) by (apply (wloop_good R t); exact G).
-  apply (IH (done ++ [x]) _ E2 Hok); [|exact G].
+  apply (IH (done ++ [x]) _ E2 Hok).
   apply step_inv; assumption.
 Qed.
 
@@ -694,12 +653,12 @@ Definition scan (R : N) (V : store) (snap : list rec) (oc : list (list rec * out
   w_d (wloop (cfg R) snap (init_w (init_d V oc))).
 
 Lemma scan_dinv R V snap oc :
-  scan_ok R V snap oc -> good (scan R V snap oc) ->
+  scan_ok R V snap oc ->
   dinv R (V ++ flat_map fst oc) (scan R V snap oc) /\
   (wfd V /\ flat_map fst oc = [] -> winv (scan R V snap oc)).
 Proof.
-  intros [H1 H2 H3 H4 H5] G. unfold scan in *.
-  apply (wloop_inv (wfd V /\ flat_map fst oc = []) R _ snap snap [] _ eq_refl H1); [|exact G].
+  intros [H1 H2 H3 H4 H5]. unfold scan in *.
+  apply (wloop_inv (wfd V /\ flat_map fst oc = []) R _ snap snap [] _ eq_refl H1).
   assert (Hd0 : dinv R (V ++ flat_map fst oc) (init_d V oc)).
   { constructor; cbn [init_d d_store d_ghost d_oc d_trace].
     - apply cinv_refl.
@@ -746,17 +705,17 @@ Proof.
 Qed.
 
 (* C07_pass, one scan: whatever the outcomes, wherever the compactor dies, whatever writers commit above
-   R between two deletes - as long as no plain delete is answered with a compare failure (good) -
+   R between two deletes (a compare failure of a plain version delete included: it marks the key like any other failure) -
    every delete issued satisfies the premise in the store of that moment, and the store reads, at every
    revision >= R, like the store the pass never touched *)
 Theorem scan_safe R V snap oc :
-  scan_ok R V snap oc -> good (scan R V snap oc) ->
+  scan_ok R V snap oc ->
   Forall (fun s => ds_safe s = true) (d_trace (scan R V snap oc)) /\
   veq R (d_store (scan R V snap oc)) (d_ghost (scan R V snap oc)) /\
   (forall k r v, In (RVer k r v) V -> In (RVer k r v) (d_ghost (scan R V snap oc))) /\
   (forall k r v, In (RVer k r v) (d_ghost (scan R V snap oc)) -> In (RVer k r v) V \/ In (RVer k r v) (flat_map fst oc)).
 Proof.
-  intros Hok G. destruct (scan_dinv R V snap oc Hok G) as [[Hc Hu Hw Hoc Hs] _].
+  intros Hok. destruct (scan_dinv R V snap oc Hok) as [[Hc Hu Hw Hoc Hs] _].
   split; [exact Hs|]. split; [|split].
   - apply cinv_veq; [|exact Hc]. eapply uniq_sub; eauto.
   - intros k r v Hin. (* the ghost only grows *)
@@ -782,10 +741,10 @@ Qed.
 (* sequential corollary: nobody else writes; reads at every revision >= R are unchanged *)
 Corollary scan_safe_seq R V snap (os : list outcome) :
   let oc := map (fun o => ([], o)) os in
-  scan_ok R V snap oc -> good (scan R V snap oc) ->
+  scan_ok R V snap oc ->
   veq R (d_store (scan R V snap oc)) V.
 Proof.
-  cbv zeta. intros Hok G. destruct (scan_safe R V snap _ Hok G) as (_ & Hv & Hsub & Hsup).
+  cbv zeta. intros Hok. destruct (scan_safe R V snap _ Hok) as (_ & Hv & Hsub & Hsup).
   eapply veq_trans; [exact Hv|]. intros R' _ k r v. apply visible_ext. intros k' r' v'. split.
   - intros Hin. apply Hsup in Hin as [Hin|Hin]; [exact Hin|].
     exfalso. clear -Hin. induction os as [|o os IH]; cbn in Hin; [exact Hin|exact (IH Hin)].
@@ -795,9 +754,9 @@ Qed.
 (* sequential: the relaxed well-formedness survives the pass, whatever fails *)
 Theorem scan_wf R V snap (os : list outcome) :
   let oc := map (fun o => ([], o)) os in
-  scan_ok R V snap oc -> good (scan R V snap oc) -> wfd V -> wfd (d_store (scan R V snap oc)).
+  scan_ok R V snap oc -> wfd V -> wfd (d_store (scan R V snap oc)).
 Proof.
-  cbv zeta. intros Hok G Hw. destruct (scan_dinv R V snap _ Hok G) as [_ H].
+  cbv zeta. intros Hok Hw. destruct (scan_dinv R V snap _ Hok) as [_ H].
   apply H. split; [exact Hw|]. clear. induction os as [|o os IH]; [reflexivity|exact IH].
 Qed.
 
